@@ -28,7 +28,16 @@ RULE = ("request = [last] one constructor + a list of <= 40 operations; the answ
         "(shapes up to 3 x 3) EVERY tuple of row lengths 0..w+1; the array mapped to f64 and to String (shape, both index "
         "forms, rows, max/min, Display, ==, as_scalar, transpose, reshape), converted to u8 / i128; copying transpose and its "
         "involution; as_scalar_unchecked; per constructor: identity at f64/i32/i128, from_flat from Vec/&Vec/slice/Box/Rc and at "
-        "String items, nested constructors at String/i128/f64 items incl. their refusal of ragged rows. non-trivial = the constructor succeeds, at least one "
+        "String items, nested constructors at String/i128/f64 items incl. their refusal of ragged rows; NON-ASCII item texts "
+        "(hardening 4): the array mapped to &str / String / char items of 0..4 characters with 2-, 3- and 4-byte characters "
+        "(value-dependent and position-dependent texts; through map, writes with both index forms and rows_mut, the nested "
+        "and the padded flat constructor; transposed and reshaped): rows, both index forms, max/min, == both ways and "
+        "against a vector with one other item, clone, and Display against the grid layout - every column right-aligned "
+        "to its widest item, padding counted in CHARACTERS; the widest item counted in characters (the model's layout) "
+        "or in bytes (what the pinned tree does: still a rectangle) are both accepted, see BYTE_COUNTED_WIDTH_ACCEPTED in "
+        "harness/src/c12.rs; (7) arrays with SPARE CAPACITY (from_flat with more than half of the items, shapes 1..4 x 1..4): "
+        "every operation of the alphabet, and every rearranging operation followed by the operations that rebuild or re-read "
+        "the buffer; `clone` requests alternate between clone() and clone_from into an existing larger array. non-trivial = the constructor succeeds, at least one "
         "operation succeeds and the array is non-empty after some step; distinct = distinct request lines")
 
 ARITY = {"reshape": 1, "transpose": 0, "transposemut": 0, "swap": 2, "set": 3, "set2": 3, "fillrow": 2,
